@@ -191,6 +191,11 @@ func (c *ChordStorage) List(ctx context.Context, prefix string, recursive bool) 
 			if key.GetType() != protocol.KeyComposite_SIMPLE {
 				continue
 			}
+			if !strings.HasPrefix(string(key.GetKey()), prefix) {
+				// ListKeys matches by string prefix, skip keys outside of the
+				// directory (e.g. sibling "certs/ab/x" when listing "certs/a")
+				continue
+			}
 			sub := strings.TrimPrefix(string(key.GetKey()), prefix)
 			before, _, ok := strings.Cut(sub, "/")
 
